@@ -10,14 +10,16 @@ COQ = dict(imports=["Model.Plan", "Spec.C02"], in_ty="input02", out_ty="pres (li
            corr="corr_C02", decide="check_C02", inclass="inclass_C02", model="model_C02")
 SUITES = {"cmd": cs.SUITE}
 cleanup = cs.cleanup
-THEOREMS = ["C02_model_holds", "C02_plan_exact", "C02_total", "C02_decider_sound", "C02_downgrade_base_removes_all"]
+THEOREMS = ["C02_whole_command_model", "C02_whole_command_decider_sound", "C02_model_holds", "C02_plan_exact", "C02_total", "C02_decider_sound", "C02_downgrade_base_removes_all"]
 TRUSTED = ["target strings (ids, base, -N, rev-N, label@rev) are resolved by the real _parse_downgrade_target / _resolve_branch and "
            "handed to the model as (target id or base, branch revision): C02 is planner-after-resolution, resolution itself is C16",
            "order oracle: stored order of _normalized_resolved_dependencies observed; theorems hold for every order"]
+TRUSTED = TRUSTED + ["suite cmd (whole command): SQLite/SQLAlchemy execute the bookkeeping statements as the list model says; the script files, env.py and alembic.command.downgrade are the real ones; the set-iteration orders of _add_branches and of _normalized_resolved_dependencies are observed from the RevisionMap the command itself built (in-process subclass that records and delegates) and handed to the model as oracles, their CONTENT is recomputed by the model and compared"]
 ASSUME = ["history loads (acyclic, references present)", "current rows are revision ids of the history"]
 RULE = ("exhaustive: every acyclic history on <=4 revisions, identity (+ sampled reversed) load order, every antichain of revisions "
         "as current rows, targets {each id, base, -1, -2, id-1}; seeded random: histories of 5-10 revisions with rows reached by "
         "random real commands, targets incl. label@id, label@-1, partial ids; plus end-to-end runs (real script files, env.py, command.downgrade on SQLite; plan = order in which downgrade() ran; 40 quick / 1500 thorough). non-trivial = non-empty plan; distinct by encoded case")
+RULE = RULE + (" || suite cmd, the whole command end to end (real script directory, env.py, SQLite, alembic.command.downgrade with the target string exactly as typed; observed: which scripts ran in which order, the version table afterwards, the exception class): EVERY acyclic history of <=3 revisions x EVERY antichain version table x every target spelling of a fixed list (ids, partial ids, head(s), base, +N/-N, id+N/id-N, junk, ranges a:b), the same with a branch label on each revision in turn (label@head, label@+N/-N, label@id, label), 40 sampled (thorough: all 729) histories of 4 revisions, seeded random histories of 4-8 revisions with labels, merges and depends_on; compared exactly with Model.Command.run_command and judged by Spec.Command.check_cmd")
 EXHAUSTIVE = {"quick": True, "thorough": True}
 CASE_TIMEOUT = 10
 DESIGN_REF = "DESIGN.md section 5 C02, Appendix A"
